@@ -1,12 +1,191 @@
 /- Driver operations of property C01 (ops are named "c01.<name>"). Core + Lean.Data.Json only. -/
 import Reamber.Util.Json
+import Reamber.Model.Osu
+import Reamber.Spec.Osu
 
 open Lean Reamber.J
 
 namespace Reamber.C01
 
-def handle (op : String) (_j : Json) : Except String Json :=
+open Reamber.Osu
+
+def sJ (s : Str) : Json := Json.str (String.ofList s)
+def bJ (b : Bool) : Json := Json.bool b
+
+def hitJ (h : Hit) : Json :=
+  obj [("offset", ratToJson h.offset), ("column", intToJson h.column), ("hitsound_set", intToJson h.hitsoundSet),
+       ("sample_set", intToJson h.sampleSet), ("addition_set", intToJson h.additionSet),
+       ("custom_set", intToJson h.customSet), ("volume", intToJson h.volume), ("hitsound_file", sJ h.file)]
+
+def holdJ (h : Hold) : Json :=
+  obj [("offset", ratToJson h.offset), ("column", intToJson h.column), ("length", ratToJson h.length),
+       ("hitsound_set", intToJson h.hitsoundSet), ("sample_set", intToJson h.sampleSet),
+       ("addition_set", intToJson h.additionSet), ("custom_set", intToJson h.customSet),
+       ("volume", intToJson h.volume), ("hitsound_file", sJ h.file)]
+
+def bpmJ (b : Bpm) : Json :=
+  obj [("offset", ratToJson b.offset), ("bpm", ratToJson b.bpm), ("metronome", ratToJson b.metronome),
+       ("sample_set", intToJson b.sampleSet), ("sample_set_index", intToJson b.sampleSetIndex),
+       ("volume", intToJson b.volume), ("kiai", bJ b.kiai)]
+
+def svJ (b : Sv) : Json :=
+  obj [("offset", ratToJson b.offset), ("multiplier", ratToJson b.multiplier),
+       ("sample_set", intToJson b.sampleSet), ("sample_set_index", intToJson b.sampleSetIndex),
+       ("volume", intToJson b.volume), ("kiai", bJ b.kiai)]
+
+def sampleJ (s : Sample) : Json :=
+  obj [("offset", ratToJson s.offset), ("sample_file", sJ s.file), ("volume", intToJson s.volume)]
+
+def metaJ (m : Meta) : Json :=
+  obj [("audio_file_name", sJ m.audioFileName), ("audio_lead_in", ratToJson m.audioLeadIn),
+       ("preview_time", ratToJson m.previewTime), ("countdown", bJ m.countdown), ("sample_set", intToJson m.sampleSet),
+       ("stack_leniency", ratToJson m.stackLeniency), ("mode", intToJson m.mode),
+       ("letterbox_in_breaks", bJ m.letterboxInBreaks), ("special_style", bJ m.specialStyle),
+       ("widescreen_storyboard", bJ m.widescreenStoryboard), ("distance_spacing", ratToJson m.distanceSpacing),
+       ("beat_divisor", ratToJson m.beatDivisor), ("grid_size", ratToJson m.gridSize),
+       ("timeline_zoom", ratToJson m.timelineZoom), ("title", sJ m.title), ("title_unicode", sJ m.titleUnicode),
+       ("artist", sJ m.artist), ("artist_unicode", sJ m.artistUnicode), ("creator", sJ m.creator),
+       ("version", sJ m.version), ("source", sJ m.source), ("tags", listToJson sJ m.tags),
+       ("beatmap_id", intToJson m.beatmapId), ("beatmap_set_id", intToJson m.beatmapSetId),
+       ("hp_drain_rate", ratToJson m.hpDrainRate), ("circle_size", ratToJson m.circleSize),
+       ("overall_difficulty", ratToJson m.overallDifficulty), ("approach_rate", ratToJson m.approachRate),
+       ("slider_multiplier", ratToJson m.sliderMultiplier), ("slider_tick_rate", ratToJson m.sliderTickRate),
+       ("background_file_name", sJ m.backgroundFileName), ("samples", listToJson sampleJ m.samples)]
+
+def chartJ (c : Chart) : Json :=
+  obj [("meta", metaJ c.md), ("bpms", listToJson bpmJ c.bpms), ("svs", listToJson svJ c.svs),
+       ("hits", listToJson hitJ c.hits), ("holds", listToJson holdJ c.holds)]
+
+def gS (j : Json) (k : String) : Except String Str := do return (← getStr j k).toList
+
+def hitOf (j : Json) : Except String Hit := do
+  return { offset := ← getRat j "offset", column := ← getInt j "column", hitsoundSet := ← getInt j "hitsound_set",
+           sampleSet := ← getInt j "sample_set", additionSet := ← getInt j "addition_set",
+           customSet := ← getInt j "custom_set", volume := ← getInt j "volume", file := ← gS j "hitsound_file" }
+
+def holdOf (j : Json) : Except String Hold := do
+  return { offset := ← getRat j "offset", column := ← getInt j "column", length := ← getRat j "length",
+           hitsoundSet := ← getInt j "hitsound_set", sampleSet := ← getInt j "sample_set",
+           additionSet := ← getInt j "addition_set", customSet := ← getInt j "custom_set",
+           volume := ← getInt j "volume", file := ← gS j "hitsound_file" }
+
+def bpmOf (j : Json) : Except String Bpm := do
+  return { offset := ← getRat j "offset", bpm := ← getRat j "bpm", metronome := ← getRat j "metronome",
+           sampleSet := ← getInt j "sample_set", sampleSetIndex := ← getInt j "sample_set_index",
+           volume := ← getInt j "volume", kiai := ← getBool j "kiai" }
+
+def svOf (j : Json) : Except String Sv := do
+  return { offset := ← getRat j "offset", multiplier := ← getRat j "multiplier",
+           sampleSet := ← getInt j "sample_set", sampleSetIndex := ← getInt j "sample_set_index",
+           volume := ← getInt j "volume", kiai := ← getBool j "kiai" }
+
+def sampleOf (j : Json) : Except String Sample := do
+  return { offset := ← getRat j "offset", file := ← gS j "sample_file", volume := ← getInt j "volume" }
+
+def strOfJ (j : Json) : Except String Str := do return (← strOf? j).toList
+
+def metaOf (j : Json) : Except String Meta := do
+  return { audioFileName := ← gS j "audio_file_name", audioLeadIn := ← getRat j "audio_lead_in",
+           previewTime := ← getRat j "preview_time", countdown := ← getBool j "countdown",
+           sampleSet := ← getInt j "sample_set", stackLeniency := ← getRat j "stack_leniency", mode := ← getInt j "mode",
+           letterboxInBreaks := ← getBool j "letterbox_in_breaks", specialStyle := ← getBool j "special_style",
+           widescreenStoryboard := ← getBool j "widescreen_storyboard", distanceSpacing := ← getRat j "distance_spacing",
+           beatDivisor := ← getRat j "beat_divisor", gridSize := ← getRat j "grid_size",
+           timelineZoom := ← getRat j "timeline_zoom", title := ← gS j "title", titleUnicode := ← gS j "title_unicode",
+           artist := ← gS j "artist", artistUnicode := ← gS j "artist_unicode", creator := ← gS j "creator",
+           version := ← gS j "version", source := ← gS j "source", tags := ← getArr strOfJ j "tags",
+           beatmapId := ← getInt j "beatmap_id", beatmapSetId := ← getInt j "beatmap_set_id",
+           hpDrainRate := ← getRat j "hp_drain_rate", circleSize := ← getRat j "circle_size",
+           overallDifficulty := ← getRat j "overall_difficulty", approachRate := ← getRat j "approach_rate",
+           sliderMultiplier := ← getRat j "slider_multiplier", sliderTickRate := ← getRat j "slider_tick_rate",
+           backgroundFileName := ← gS j "background_file_name", samples := ← getArr sampleOf j "samples" }
+
+def chartOf (j : Json) : Except String Chart := do
+  return { md := ← metaOf (← field j "meta"), bpms := ← getArr bpmOf j "bpms", svs := ← getArr svOf j "svs",
+           hits := ← getArr hitOf j "hits", holds := ← getArr holdOf j "holds" }
+
+def tokJ : Tok → Json
+  | .lit s => obj [("s", sJ s)]
+  | .int i => obj [("s", sJ (showInt i))]
+  | .repr q => obj [("r", ratToJson q)]
+  | .g q => obj [("g", ratToJson q)]
+  | .uni s => obj [("u", sJ s)]
+
+def resJ {α} (f : α → Json) : Except Err α → Json
+  | .ok v => okJson (f v)
+  | .error e => errJson e.toString
+
+def optJ {α} (f : α → Json) : Option α → Json
+  | some a => f a
+  | none => Json.null
+
+def objJ : Obj → Json
+  | .hit h => obj [("hit", hitJ h)]
+  | .hold h => obj [("hold", holdJ h)]
+
+def tpJ : TPoint → Json
+  | .bpm b => obj [("bpm", bpmJ b)]
+  | .sv s => obj [("sv", svJ s)]
+
+def handle (op : String) (j : Json) : Except String Json := do
   match op with
+  -- numeric core
+  | "c01.x_to_col" =>
+    let x ← getInt j "x"
+    let k ← getInt j "k"
+    .ok (okJson (obj [("model", intToJson (xToCol x k)), ("spec", intToJson (specCol x k)),
+                      ("is_column", bJ (decide (IsColumn x k (xToCol x k))))]))
+  | "c01.is_column" =>
+    .ok (okJson (bJ (decide (IsColumn (← getInt j "x") (← getInt j "k") (← getInt j "c")))))
+  | "c01.col_to_x" =>
+    .ok (okJson (intToJson (colToX (← getInt j "c") (← getInt j "k"))))
+  | "c01.col_table" =>
+    -- exhaustive tables for one key count: x → column for x in [0, 512), column → x
+    let k ← getInt j "k"
+    let xs := (List.range 512).map (fun (x : Nat) => xToCol (x : Int) k)
+    let sp := (List.range 512).map (fun (x : Nat) => specCol (x : Int) k)
+    let cs := (List.range k.toNat).map (fun (c : Nat) => colToX (c : Int) k)
+    .ok (okJson (obj [("x_to_col", listToJson intToJson xs), ("spec", listToJson intToJson sp),
+                      ("col_to_x", listToJson intToJson cs)]))
+  | "c01.trunc" => .ok (okJson (intToJson (pyTrunc (← getRat j "q"))))
+  -- lexing
+  | "c01.read_int" => .ok (resJ intToJson (readInt (← gS j "s")))
+  | "c01.read_float" => .ok (resJ ratToJson (readFloat (← gS j "s")))
+  | "c01.strip" => .ok (okJson (sJ (strip (← gS j "s"))))
+  -- lines
+  | "c01.classify" =>
+    let s ← gS j "s"
+    .ok (okJson (obj [("is_hit", bJ (isHit s)), ("is_hold", bJ (isHold s)), ("is_bpm", bJ (isTimingPoint s)),
+                      ("is_sv", bJ (isSliderVelocity s)), ("wf_obj", bJ (wfObjLine s)), ("wf_timing", bJ (wfTimingLine s))]))
+  | "c01.read_hit" => .ok (resJ hitJ (readHit (← gS j "s") (← getInt j "k")))
+  | "c01.read_hold" => .ok (resJ holdJ (readHold (← gS j "s") (← getInt j "k")))
+  | "c01.read_bpm" => .ok (resJ bpmJ (readBpm (← gS j "s")))
+  | "c01.read_sv" => .ok (resJ svJ (readSv (← gS j "s")))
+  | "c01.read_sample" => .ok (resJ sampleJ (readSample (← gS j "s")))
+  | "c01.denote_obj" => .ok (resJ (optJ objJ) (denoteObj (← getInt j "k") (← gS j "s")))
+  | "c01.denote_timing" => .ok (resJ (optJ tpJ) (denoteTiming (← gS j "s")))
+  -- whole text
+  | "c01.read" =>
+    let lines ← getArr strOfJ j "lines"
+    .ok (resJ chartJ (read lines))
+  | "c01.denote" =>
+    let lines ← getArr strOfJ j "lines"
+    .ok (resJ chartJ (denote lines))
+  | "c01.wf" =>
+    -- every line that the sections [TimingPoints] / [HitObjects] contain is a line of the dialect
+    let lines ← getArr strOfJ j "lines"
+    let ls := (lines.map strip).filter (fun l => l ≠ [])
+    let secs := (sections ls).2
+    let tp := (body "[TimingPoints]" secs).filter (fun l => !isComment l)
+    let ho := (body "[HitObjects]" secs).filter (fun l => !isComment l)
+    .ok (okJson (obj [("timing", bJ (tp.all wfTimingLine)), ("objects", bJ (ho.all wfObjLine))]))
+  | "c01.write" =>
+    let c ← chartOf (← field j "chart")
+    .ok (okJson (listToJson (fun l => listToJson tokJ l) (write c)))
+  | "c01.quantize" =>
+    -- `unidecode` is applied by the harness: the chart arrives with title/artist already transliterated
+    let c ← chartOf (← field j "chart")
+    .ok (okJson (chartJ (quantize id c)))
   | _ => .error s!"unknown op {op}"
 
 end Reamber.C01
